@@ -1,7 +1,876 @@
-//! C03 — not built yet.
-use crate::report::Tier;
+//! C03 — first committer wins: concurrent writers of one entity cannot both commit; a writer
+//! that committed before T began never causes T's refusal; gc never changes a decision.
+//!
+//! Commit-decision checker. Histories of begin / write(entity) / commit / abort / gc are run on
+//! the real `TransactionManager`, recorded at the API boundary with one logical clock, and every
+//! commit decision is compared with the one computed from the recorded history alone. Every
+//! history is run with gc stripped / gc at the generated points / gc after every operation (and,
+//! in the exhaustive families, with a single gc at every position). Session level: the same
+//! shapes as SET / DELETE statements through real sessions. Threaded: plain stress, judged from
+//! the epochs the API returns.
 
-pub fn run(_tier: Tier, _seed: u64) -> ! {
-    println!("INCONCLUSIVE property=C03 reason=monitor not built yet");
-    std::process::exit(2)
+#[path = "c03_hist.rs"]
+mod hist;
+
+use crate::report::{Report, Tier};
+use crate::rng::Rng;
+use grafeo_common::types::Value;
+use grafeo_engine::GrafeoDB;
+use grafeo_engine::transaction::{EntityId, TransactionManager};
+use hist::{Acc, Lvl, Op, Opts, RandCfg};
+use serde_json::json;
+use std::sync::Arc;
+
+const P: &str = "c03";
+
+// ---------------------------------------------------------------------------------------------
+// Manager level
+// ---------------------------------------------------------------------------------------------
+
+/// Directed cells: relation x gc placement x entity kind x level pair. Always run.
+fn manager_matrix(acc: &mut Acc) {
+    use Op::*;
+    let levels = [Lvl::Rc, Lvl::Si, Lvl::Ser];
+    for emap in 0..hist::N_EMAPS {
+        for la in levels {
+            for lb in levels {
+                let cells: Vec<(&str, Vec<Op>)> = vec![
+                    ("overlap.begin_begin", vec![Begin(0, la), Begin(1, lb), Write(0, 0), Write(1, 0), Commit(0), Commit(1)]),
+                    ("overlap.second_begins_before_first_commits", vec![Begin(0, la), Write(0, 0), Begin(1, lb), Commit(0), Write(1, 0), Commit(1)]),
+                    ("overlap.later_starter_commits_first", vec![Begin(0, la), Write(0, 0), Begin(1, lb), Write(1, 0), Commit(1), Commit(0)]),
+                    ("overlap.gc_between_commits", vec![Begin(0, la), Begin(1, lb), Write(0, 0), Write(1, 0), Commit(0), Gc, Commit(1)]),
+                    ("non_overlap.no_gc", vec![Begin(0, la), Write(0, 0), Commit(0), Begin(1, lb), Write(1, 0), Commit(1)]),
+                    ("non_overlap.gc_before_begin", vec![Begin(0, la), Write(0, 0), Commit(0), Gc, Begin(1, lb), Write(1, 0), Commit(1)]),
+                    ("non_overlap.gc_after_begin", vec![Begin(0, la), Write(0, 0), Commit(0), Begin(1, lb), Gc, Write(1, 0), Commit(1)]),
+                    (
+                        "non_overlap.gc_before_begin_reader_pins",
+                        vec![Begin(2, Lvl::Si), Begin(0, la), Write(0, 0), Commit(0), Gc, Begin(1, lb), Write(1, 0), Commit(1), Commit(2)],
+                    ),
+                    (
+                        "non_overlap.reader_pins_then_ends",
+                        vec![Begin(2, Lvl::Si), Begin(0, la), Write(0, 0), Commit(0), Commit(2), Gc, Begin(1, lb), Write(1, 0), Commit(1)],
+                    ),
+                    ("non_overlap.first_aborted", vec![Begin(0, la), Write(0, 0), Abort(0), Begin(1, lb), Write(1, 0), Commit(1)]),
+                    ("overlap.first_aborted", vec![Begin(0, la), Begin(1, lb), Write(0, 0), Write(1, 0), Abort(0), Commit(1)]),
+                    ("disjoint_entities", vec![Begin(0, la), Begin(1, lb), Write(0, 0), Write(1, 1), Commit(0), Commit(1)]),
+                    (
+                        "chain_of_three_non_overlapping",
+                        vec![Begin(0, la), Write(0, 0), Commit(0), Begin(1, lb), Write(1, 0), Commit(1), Gc, Begin(2, la), Write(2, 0), Commit(2)],
+                    ),
+                ];
+                for (name, h) in cells {
+                    for abort_on_refusal in [true, false] {
+                        let before = acc.devs.values().map(|v| v.0).sum::<u64>();
+                        hist::check_history(P, &h, Opts { emap, abort_on_refusal, poke_finished: true }, 2, false, "matrix", true, acc);
+                        let after = acc.devs.values().map(|v| v.0).sum::<u64>();
+                        acc.count(&format!("cell[{name}].{}", if after == before { "pass_in_all_gc_modes" } else { "deviates_in_some_gc_mode" }), 1);
+                    }
+                }
+            }
+        }
+    }
+}
+
+/// Exhaustive: every interleaving of every choice of write-only programs for `ntx` transactions
+/// over `nent` entities. `keep_one_in`: 1 = all; k = a pseudo-random 1/k of the interleavings.
+fn manager_exhaustive(seed: u64, ntx: usize, nent: u8, sweep: bool, keep_one_in: u64, family: &'static str) -> Acc {
+    let per_tx: Vec<Vec<Vec<Op>>> = (0..ntx).map(|t| hist::write_programs(t as u8, Lvl::Si, nent)).collect();
+    let np = per_tx[0].len();
+    let combos = np.pow(ntx as u32);
+    hist::parallel(hist::n_workers(), |w, nw, acc| {
+        for combo in (0..combos).filter(|c| c % nw == w) {
+            let mut c = combo;
+            let mut progs = Vec::new();
+            for t in 0..ntx {
+                progs.push(per_tx[t][c % np].clone());
+                c /= np;
+            }
+            let mut idx: u64 = 0;
+            let mut buf: Vec<Op> = Vec::new();
+            hist::interleavings(&progs, &mut |h| {
+                idx += 1;
+                let key = (combo as u64) << 32 | idx;
+                let mut r = Rng::new(seed, "C03.exh", key);
+                if keep_one_in > 1 && r.below(keep_one_in as usize) != 0 {
+                    return;
+                }
+                // levels, entity map and refusal handling vary deterministically with the case
+                buf.clear();
+                buf.extend(h.iter().map(|o| match *o {
+                    Op::Begin(t, _) => Op::Begin(t, Lvl::from_index(r.below(3))),
+                    x => x,
+                }));
+                let o = Opts { emap: r.below(hist::N_EMAPS), abort_on_refusal: r.below(4) != 0, poke_finished: false };
+                hist::check_history(P, &buf, o, nent, false, family, sweep, acc);
+            });
+        }
+    })
+}
+
+fn manager_random(seed: u64, n: u64) -> Acc {
+    hist::parallel(hist::n_workers(), |w, nw, acc| {
+        for case in (0..n).filter(|c| (*c as usize) % nw == w) {
+            let mut r = Rng::new(seed, "C03.rand", case);
+            let cfg = RandCfg {
+                ntx: 2 + r.below(5),
+                nent: 1 + r.below(4) as u8,
+                reads: false,
+                p_reader: [0.0, 0.2, 0.4][r.below(3)],
+                p_gc: [0.0, 0.1, 0.3][r.below(3)],
+                level: if r.chance(0.3) { Some(Lvl::from_index(r.below(3))) } else { None },
+            };
+            let mut h = hist::random_history(&mut r, cfg);
+            if r.chance(0.3) {
+                hist::mutate(&mut r, &mut h, cfg.ntx, cfg.nent);
+                h.retain(|o| !matches!(o, Op::Read(..)));
+            }
+            let o = Opts { emap: r.below(hist::N_EMAPS), abort_on_refusal: r.chance(0.6), poke_finished: r.chance(0.3) };
+            hist::check_history(P, &h, o, cfg.nent, false, "random", false, acc);
+        }
+    })
+}
+
+// ---------------------------------------------------------------------------------------------
+// Begin gap (hook site txmgr.begin.between_epoch_and_insert; the harness is always built with
+// --cfg grafeo_verif): a commit and/or gc scheduled
+// between "begin read the epoch" and "begin registered the transaction"
+// ---------------------------------------------------------------------------------------------
+
+mod gap {
+    use std::cell::RefCell;
+    thread_local! {
+        pub static ACTION: RefCell<Option<Box<dyn FnOnce()>>> = const { RefCell::new(None) };
+    }
+    pub fn handler(site: &'static str, _a: u64, _b: u64) -> u64 {
+        if site == "txmgr.begin.between_epoch_and_insert" {
+            if let Some(f) = ACTION.with(|a| a.borrow_mut().take()) {
+                f();
+            }
+        }
+        0
+    }
+}
+
+/// Deterministic schedules through the begin gap. U writes e and is active; T's begin is
+/// entered; inside the gap the listed steps run (on the same thread — the site holds no lock);
+/// then T writes e and commits. U's commit call lies inside T's begin call; which of the two
+/// took effect first is read off the epochs the API reports (start_epoch(T) vs the epoch
+/// returned by U's commit): if U committed after T's snapshot epoch, T must be refused.
+fn begin_gap_matrix(rep: &mut Report) {
+    use std::cell::RefCell;
+    use std::rc::Rc;
+    grafeo_common::verif::install(gap::handler);
+    let plans: [(&str, &[&str]); 6] = [
+        ("commit", &["commit"]),
+        ("commit+gc", &["commit", "gc"]),
+        ("gc+commit", &["gc", "commit"]),
+        ("commit+gc|older_reader_pins", &["commit", "gc"]),
+        ("gc", &["gc"]),
+        ("abort+gc", &["abort", "gc"]),
+    ];
+    for (name, steps) in plans {
+        for emap in 0..hist::N_EMAPS {
+            for lu in [Lvl::Rc, Lvl::Si, Lvl::Ser] {
+                for lt in [Lvl::Rc, Lvl::Si, Lvl::Ser] {
+                    let mgr = Rc::new(TransactionManager::new());
+                    let e = hist::entity(emap, 0);
+                    let reader = name.ends_with("older_reader_pins").then(|| mgr.begin());
+                    let u = mgr.begin_with_isolation(lu.iso());
+                    let _ = mgr.record_write(u, e);
+                    let log: Rc<RefCell<Vec<String>>> = Rc::new(RefCell::new(Vec::new()));
+                    let u_commit: Rc<RefCell<Option<hist::Dec>>> = Rc::new(RefCell::new(None));
+                    {
+                        let (mgr, log, u_commit) = (Rc::clone(&mgr), Rc::clone(&log), Rc::clone(&u_commit));
+                        let steps: Vec<&'static str> = steps.to_vec();
+                        gap::ACTION.with(|a| {
+                            *a.borrow_mut() = Some(Box::new(move || {
+                                for s in steps {
+                                    match s {
+                                        "commit" => {
+                                            let d = hist::Dec::from_result(&mgr.commit(u));
+                                            log.borrow_mut().push(format!("  [in T.begin gap] U.commit -> {d:?}"));
+                                            *u_commit.borrow_mut() = Some(d);
+                                        }
+                                        "abort" => {
+                                            let _ = mgr.abort(u);
+                                            log.borrow_mut().push("  [in T.begin gap] U.abort".into());
+                                        }
+                                        _ => {
+                                            let n = mgr.gc();
+                                            log.borrow_mut().push(format!("  [in T.begin gap] gc -> removed {n}"));
+                                        }
+                                    }
+                                }
+                            }));
+                        });
+                    }
+                    log.borrow_mut().push("T.begin called".into());
+                    let t = mgr.begin_with_isolation(lt.iso());
+                    let leftover = gap::ACTION.with(|a| a.borrow_mut().take().is_some());
+                    let t_start = mgr.start_epoch(t).map(|x| x.as_u64());
+                    log.borrow_mut().push(format!("T.begin returned; start_epoch(T) = {t_start:?}"));
+                    let _ = mgr.record_write(t, e);
+                    let td = hist::Dec::from_result(&mgr.commit(t));
+                    log.borrow_mut().push(format!("T.commit -> {td:?}"));
+                    rep.eval();
+                    rep.count(&format!("begin_gap.cell[{name}]"), 1);
+                    if leftover {
+                        rep.count("begin_gap.hook_site_not_reached", 1);
+                        continue;
+                    }
+                    // U's commit call lies inside T's begin call; concurrent calls may take effect in
+                    // either order, so the order is taken from the epochs the API reports: U
+                    // overlaps T iff commit_epoch(U) > start_epoch(T)
+                    let u_epoch = match *u_commit.borrow() {
+                        Some(hist::Dec::Ok(e)) => Some(e),
+                        _ => None,
+                    };
+                    let u_committed = matches!((u_epoch, t_start), (Some(ue), Some(ts)) if ue > ts);
+                    let detail = json!({"steps_in_gap": name, "entity": hist::entity_name(emap, 0), "levels": [lu.name(), lt.name()], "reader": reader.is_some(), "log": *log.borrow()});
+                    if u_committed {
+                        rep.nontrivial(crate::rng::hash_str(&format!("gap{name}{emap}{}{}", lu.name(), lt.name())));
+                        if td.accepted() {
+                            rep.deviation(&format!("{P}:manager|begin_gap|{name}|both_commit"), detail);
+                        } else if td != hist::Dec::WriteConflict {
+                            rep.deviation(&format!("{P}:manager|begin_gap|{name}|wrong_error"), detail);
+                        }
+                    } else if !td.accepted() {
+                        let why = if u_epoch.is_some() { "refused_by_writer_committed_before_start_epoch" } else { "refused_without_committed_writer" };
+                        rep.deviation(&format!("{P}:manager|begin_gap|{name}|{why}"), detail);
+                    }
+                }
+            }
+        }
+    }
+    // the handler stays installed (it answers 0 to every other site, like no handler at all)
+}
+
+// ---------------------------------------------------------------------------------------------
+// Session level
+// ---------------------------------------------------------------------------------------------
+
+#[derive(Clone, Copy, PartialEq, Eq, Debug, PartialOrd, Ord)]
+enum Kind {
+    SetNode,
+    DelNode,
+    SetEdge,
+    DelEdge,
+}
+impl Kind {
+    fn name(self) -> &'static str {
+        match self {
+            Kind::SetNode => "set_node_prop",
+            Kind::DelNode => "delete_node",
+            Kind::SetEdge => "set_edge_prop",
+            Kind::DelEdge => "delete_edge",
+        }
+    }
+    fn on_node(self) -> bool {
+        matches!(self, Kind::SetNode | Kind::DelNode)
+    }
+}
+
+#[derive(Clone, Copy, Debug)]
+enum SOp {
+    Begin(u8, Lvl),
+    /// session, kind, target index
+    Write(u8, Kind, u8),
+    Commit(u8),
+    Rollback(u8),
+}
+
+fn render_sops(h: &[SOp]) -> String {
+    h.iter()
+        .map(|o| match o {
+            SOp::Begin(s, l) => format!("S{s}.begin_tx({})", l.name()),
+            SOp::Write(s, k, t) => format!("S{s}.{}({}{t})", k.name(), if k.on_node() { "node uid=" } else { "edge eid=" }),
+            SOp::Commit(s) => format!("S{s}.commit"),
+            SOp::Rollback(s) => format!("S{s}.rollback"),
+        })
+        .collect::<Vec<_>>()
+        .join("; ")
+}
+
+struct SWrite {
+    kind: Kind,
+    target: u8,
+    value: i64,
+}
+#[derive(Default)]
+struct STx {
+    begun: Option<u32>,
+    writes: Vec<SWrite>,
+    /// (clock, accepted, error text)
+    commit: Option<(u32, bool, String)>,
+    rolled_back: bool,
+}
+
+const N_TARGETS: u8 = 3;
+
+fn pair_kinds(a: Kind, b: Kind) -> String {
+    if a == b {
+        a.name().to_string()
+    } else {
+        let (x, y) = if a.name() < b.name() { (a, b) } else { (b, a) };
+        format!("{}+{}", x.name(), y.name())
+    }
+}
+
+/// Run one session-level history on a fresh in-memory database and judge it.
+fn session_history(h: &[SOp], family: &str, rep: &mut Report) {
+    let db = GrafeoDB::new_in_memory();
+    // nodes uid 0..N_TARGETS with v = 0; edge k from uid 100+k to uid 200+k with w = 0.
+    // Endpoints and edges are created first so that edge id k never equals the id of a target node
+    // (SET/DELETE on an edge variable act on the NODE with the edge's numeric id, see assumptions).
+    let mut node_ids = Vec::new();
+    let mut edge_ids = Vec::new();
+    for k in 0..N_TARGETS {
+        // sacrificial nodes occupying the numeric ids the edges will get
+        db.create_node_with_props(&["Dummy"], [("uid", Value::Int64(900 + i64::from(k)))]);
+    }
+    for k in 0..N_TARGETS {
+        let a = db.create_node_with_props(&["N"], [("uid", Value::Int64(100 + i64::from(k)))]);
+        let b = db.create_node_with_props(&["N"], [("uid", Value::Int64(200 + i64::from(k)))]);
+        edge_ids.push(db.create_edge_with_props(a, b, "R", [("eid", Value::Int64(i64::from(k))), ("w", Value::Int64(0))]));
+    }
+    for k in 0..N_TARGETS {
+        node_ids.push(db.create_node_with_props(&["N"], [("uid", Value::Int64(i64::from(k))), ("v", Value::Int64(0))]));
+    }
+    let ns = 1 + h
+        .iter()
+        .map(|o| match o {
+            SOp::Begin(s, _) | SOp::Write(s, ..) | SOp::Commit(s) | SOp::Rollback(s) => *s,
+        })
+        .max()
+        .unwrap_or(0) as usize;
+    let mut sessions: Vec<_> = (0..ns).map(|_| db.session()).collect();
+    let mut txs: Vec<STx> = (0..ns).map(|_| STx::default()).collect();
+    let mut clock = 0u32;
+    let mut next_value = 1000i64;
+    let mut log: Vec<String> = Vec::new();
+    let mut harness_trouble = false;
+    for op in h {
+        clock += 1;
+        match *op {
+            SOp::Begin(s, l) => {
+                let r = if l == Lvl::Si { sessions[s as usize].begin_tx() } else { sessions[s as usize].begin_tx_with_isolation(l.iso()) };
+                match r {
+                    Ok(()) => txs[s as usize].begun = Some(clock),
+                    Err(e) => {
+                        log.push(format!("S{s}.begin_tx -> Err({e})"));
+                        harness_trouble = true;
+                    }
+                }
+            }
+            SOp::Write(s, kind, t) => {
+                if txs[s as usize].begun.is_none() || txs[s as usize].commit.is_some() || txs[s as usize].rolled_back {
+                    continue;
+                }
+                let sess = &sessions[s as usize];
+                let (probe, stmt, value) = match kind {
+                    Kind::SetNode => {
+                        next_value += 1;
+                        (format!("MATCH (n:N {{uid: {t}}}) RETURN n.uid"), format!("MATCH (n:N {{uid: {t}}}) SET n.v = {next_value}"), next_value)
+                    }
+                    Kind::DelNode => (format!("MATCH (n:N {{uid: {t}}}) RETURN n.uid"), format!("MATCH (n:N {{uid: {t}}}) DELETE n"), -1),
+                    Kind::SetEdge => {
+                        next_value += 1;
+                        (
+                            format!("MATCH (a:N {{uid: {}}})-[e:R]->(b) RETURN e.eid", 100 + i64::from(t)),
+                            format!("MATCH (a:N {{uid: {}}})-[e:R]->(b) SET e.w = {next_value}", 100 + i64::from(t)),
+                            next_value,
+                        )
+                    }
+                    Kind::DelEdge => (
+                        format!("MATCH (a:N {{uid: {}}})-[e:R]->(b) RETURN e.eid", 100 + i64::from(t)),
+                        format!("MATCH (a:N {{uid: {}}})-[e:R]->(b) DELETE e", 100 + i64::from(t)),
+                        -1,
+                    ),
+                };
+                // the statement counts as a modification only if the session could see the entity
+                // before, the statement succeeded, and its effect on that very entity is observable
+                let visible = sess.execute(&probe).map(|r| r.row_count()).unwrap_or(0) == 1;
+                let res = sess.execute(&stmt);
+                let effect = match kind {
+                    Kind::SetNode => db.get_node(node_ids[t as usize]).and_then(|n| n.get_property("v").cloned()) == Some(Value::Int64(value)),
+                    Kind::SetEdge => db.get_edge(edge_ids[t as usize]).and_then(|e| e.get_property("w").cloned()) == Some(Value::Int64(value)),
+                    Kind::DelNode => sess.execute(&probe).map(|r| r.row_count()).unwrap_or(1) == 0,
+                    Kind::DelEdge => sess.execute(&probe).map(|r| r.row_count()).unwrap_or(1) == 0 && !sess.edge_exists(edge_ids[t as usize]),
+                };
+                let performed = res.is_ok() && visible && effect;
+                log.push(format!("S{s}: {stmt} -> {}", match &res {
+                    Ok(r) => format!("ok rows={} visible_before={visible} effect_observed={effect}", r.row_count()),
+                    Err(e) => format!("Err({e})"),
+                }));
+                rep.count(&format!("session.stmt.{}.{}", kind.name(), if performed { "performed" } else { "no_effect" }), 1);
+                if performed {
+                    txs[s as usize].writes.push(SWrite { kind, target: t, value });
+                }
+            }
+            SOp::Commit(s) => {
+                if txs[s as usize].begun.is_none() || txs[s as usize].commit.is_some() || txs[s as usize].rolled_back {
+                    continue;
+                }
+                let r = sessions[s as usize].commit();
+                log.push(format!("S{s}.commit -> {}", match &r {
+                    Ok(()) => "ok".to_string(),
+                    Err(e) => format!("Err({e})"),
+                }));
+                txs[s as usize].commit = Some((clock, r.is_ok(), r.err().map(|e| e.to_string()).unwrap_or_default()));
+            }
+            SOp::Rollback(s) => {
+                if txs[s as usize].begun.is_none() || txs[s as usize].commit.is_some() || txs[s as usize].rolled_back {
+                    continue;
+                }
+                let r = sessions[s as usize].rollback();
+                log.push(format!("S{s}.rollback -> {}", if r.is_ok() { "ok" } else { "err" }));
+                txs[s as usize].rolled_back = true;
+            }
+        }
+    }
+    rep.eval();
+    rep.count(&format!("session.histories.{family}"), 1);
+    if harness_trouble {
+        rep.count("session.histories.begin_failed", 1);
+        return;
+    }
+    // final state
+    let reader = db.session();
+    let final_node = |t: u8| -> Option<Option<i64>> {
+        // None = node gone; Some(v)
+        let r = reader.execute(&format!("MATCH (n:N {{uid: {t}}}) RETURN n.v")).ok()?;
+        let rows: Vec<_> = r.iter().collect();
+        if rows.is_empty() {
+            return Some(None);
+        }
+        match rows[0].first() {
+            Some(Value::Int64(x)) => Some(Some(*x)),
+            _ => Some(Some(i64::MIN)),
+        }
+    };
+    let final_edge = |t: u8| -> Option<Option<i64>> {
+        match db.get_edge(edge_ids[t as usize]) {
+            None => Some(None),
+            Some(e) => match e.get_property("w") {
+                Some(Value::Int64(x)) => Some(Some(*x)),
+                _ => Some(Some(i64::MIN)),
+            },
+        }
+    };
+    let detail = |why: String| json!({"family": family, "history": render_sops(h), "log": log, "why": why});
+    let mut nontrivial = false;
+    // pairs
+    for a in 0..ns {
+        for b in 0..ns {
+            if a == b {
+                continue;
+            }
+            let (Some((ca, oka, _)), Some((cb, okb, errb))) = (&txs[a].commit, &txs[b].commit) else { continue };
+            if ca > cb {
+                continue;
+            }
+            // a asked to commit first
+            let bb = txs[b].begun.unwrap_or(0);
+            let overlap = bb < *ca;
+            for wa in &txs[a].writes {
+                for wb in &txs[b].writes {
+                    if wa.kind.on_node() != wb.kind.on_node() || wa.target != wb.target {
+                        continue;
+                    }
+                    let kinds = pair_kinds(wa.kind, wb.kind);
+                    if overlap {
+                        nontrivial = true;
+                        rep.count(&format!("session.pair.overlap.{kinds}"), 1);
+                        if *oka && *okb {
+                            let fin = if wa.kind.on_node() { final_node(wa.target) } else { final_edge(wa.target) };
+                            rep.deviation(
+                                &format!("{P}:session|overlap|{kinds}|both_commit"),
+                                detail(format!(
+                                    "S{a} and S{b} overlap, both modified {} {} (values {} and {}), both commits were accepted; final value {:?}",
+                                    if wa.kind.on_node() { "node uid" } else { "edge eid" },
+                                    wa.target,
+                                    wa.value,
+                                    wb.value,
+                                    fin
+                                )),
+                            );
+                        }
+                    } else {
+                        rep.count(&format!("session.pair.non_overlap.{kinds}"), 1);
+                        if *oka && !*okb {
+                            rep.deviation(&format!("{P}:session|non_overlap|{kinds}|refused"), detail(format!("S{b} refused ({errb}) although S{a} committed before it began")));
+                        }
+                    }
+                }
+            }
+        }
+    }
+    // a refusal must name a committed overlapping writer of a common entity
+    for b in 0..ns {
+        let Some((cb, false, errb)) = &txs[b].commit else { continue };
+        let bb = txs[b].begun.unwrap_or(0);
+        let justified = (0..ns).any(|a| {
+            a != b
+                && matches!(&txs[a].commit, Some((ca, true, _)) if ca < cb && *ca > bb)
+                && txs[a].writes.iter().any(|wa| txs[b].writes.iter().any(|wb| wa.kind.on_node() == wb.kind.on_node() && wa.target == wb.target))
+        });
+        if !justified {
+            let any_prior = (0..ns).any(|a| {
+                a != b && txs[a].writes.iter().any(|wa| txs[b].writes.iter().any(|wb| wa.kind.on_node() == wb.kind.on_node() && wa.target == wb.target))
+            });
+            if !any_prior {
+                rep.deviation(&format!("{P}:session|no_writer|refused"), detail(format!("S{b} refused: {errb}")));
+            }
+        }
+    }
+    // final values: only where rollback (C02's business) is not involved on that target
+    for on_node in [true, false] {
+        for t in 0..N_TARGETS {
+            let mut writers: Vec<(u32, usize, &SWrite)> = Vec::new(); // (commit clock, session, last write)
+            let mut spoiled = false;
+            for s in 0..ns {
+                let ws: Vec<&SWrite> = txs[s].writes.iter().filter(|w| w.kind.on_node() == on_node && w.target == t).collect();
+                if ws.is_empty() {
+                    continue;
+                }
+                match &txs[s].commit {
+                    Some((c, true, _)) => writers.push((*c, s, ws[ws.len() - 1])),
+                    Some((_, false, _)) => {} // refused: its writes must not survive
+                    None => spoiled = true,   // rolled back or left open: C01/C02 territory
+                }
+            }
+            // targets somebody deleted are left to C01/C14 (which read path shows a deleted entity
+            // is their subject); the final value is judged on SET-only targets
+            let any_delete = txs.iter().any(|x| x.writes.iter().any(|w| w.kind.on_node() == on_node && w.target == t && matches!(w.kind, Kind::DelNode | Kind::DelEdge)));
+            if spoiled || writers.is_empty() || any_delete {
+                rep.count("session.final_value_skipped", u64::from(!writers.is_empty()));
+                continue;
+            }
+            writers.sort_by_key(|w| w.0);
+            // pairwise overlap among committed writers = lost update, reported above
+            let serial = writers.windows(2).all(|p| txs[p[1].1].begun.unwrap_or(0) > p[0].0);
+            if !serial {
+                continue;
+            }
+            let last = writers[writers.len() - 1].2;
+            let fin = if on_node { final_node(t) } else { final_edge(t) };
+            let expected: Option<i64> = if matches!(last.kind, Kind::DelNode | Kind::DelEdge) { None } else { Some(last.value) };
+            rep.count("session.final_value_checks", 1);
+            if fin != Some(expected) {
+                let relation = if writers.len() == 1 { "single_writer" } else { "non_overlap" };
+                rep.deviation(
+                    &format!("{P}:session|{relation}|{}|final_value_wrong", last.kind.name()),
+                    detail(format!("{} {t}: final {:?}, expected {:?} (value of the last committed writer S{})", if on_node { "node" } else { "edge" }, fin, expected, writers[writers.len() - 1].1)),
+                );
+            }
+        }
+    }
+    if nontrivial {
+        rep.nontrivial(crate::rng::hash_str(&format!("S{}", render_sops(h))));
+        rep.sample(json!({"level": "session", "history": render_sops(h), "log": log}));
+    }
+}
+
+fn session_matrix(rep: &mut Report) {
+    use SOp::*;
+    let levels = [Lvl::Rc, Lvl::Si, Lvl::Ser];
+    let kind_pairs = [
+        (Kind::SetNode, Kind::SetNode),
+        (Kind::SetNode, Kind::DelNode),
+        (Kind::DelNode, Kind::SetNode),
+        (Kind::DelNode, Kind::DelNode),
+        (Kind::SetEdge, Kind::SetEdge),
+        (Kind::SetEdge, Kind::DelEdge),
+        (Kind::DelEdge, Kind::SetEdge),
+        (Kind::DelEdge, Kind::DelEdge),
+    ];
+    for (ka, kb) in kind_pairs {
+        for la in levels {
+            for lb in levels {
+                let hs: Vec<Vec<SOp>> = vec![
+                    vec![Begin(0, la), Begin(1, lb), Write(0, ka, 1), Write(1, kb, 1), Commit(0), Commit(1)],
+                    vec![Begin(0, la), Write(0, ka, 1), Begin(1, lb), Write(1, kb, 1), Commit(1), Commit(0)],
+                    vec![Begin(0, la), Write(0, ka, 1), Begin(1, lb), Commit(0), Write(1, kb, 1), Commit(1)],
+                    // non-overlapping: both must commit, the later one's value stays
+                    vec![Begin(0, la), Write(0, ka, 1), Commit(0), Begin(1, lb), Write(1, kb, 1), Commit(1)],
+                    // different targets: no conflict
+                    vec![Begin(0, la), Begin(1, lb), Write(0, ka, 0), Write(1, kb, 2), Commit(0), Commit(1)],
+                ];
+                for h in hs {
+                    session_history(&h, "matrix", rep);
+                }
+            }
+        }
+    }
+}
+
+fn session_random(rep: &mut Report, seed: u64, n: u64) {
+    let kinds = [Kind::SetNode, Kind::SetNode, Kind::SetEdge, Kind::DelNode, Kind::DelEdge];
+    for case in 0..n {
+        let mut r = Rng::new(seed, "C03.session", case);
+        let ns = 2 + r.below(3);
+        let ntargets = 1 + r.below(N_TARGETS as usize) as u8;
+        // 0 new, 1 active, 2 done
+        let mut st = vec![0u8; ns];
+        let mut h = Vec::new();
+        let mut guard = 0;
+        while st.iter().any(|s| *s != 2) && guard < 60 {
+            guard += 1;
+            let live: Vec<usize> = (0..ns).filter(|i| st[*i] != 2).collect();
+            let i = *r.pick(&live);
+            let s = i as u8;
+            match st[i] {
+                0 => {
+                    h.push(SOp::Begin(s, Lvl::from_index(r.below(3))));
+                    st[i] = 1;
+                }
+                _ => {
+                    if r.chance(0.55) {
+                        h.push(SOp::Write(s, *r.pick(&kinds), r.below(ntargets as usize) as u8));
+                    } else if r.chance(0.85) {
+                        h.push(SOp::Commit(s));
+                        st[i] = 2;
+                    } else {
+                        h.push(SOp::Rollback(s));
+                        st[i] = 2;
+                    }
+                }
+            }
+        }
+        session_history(&h, "random", rep);
+    }
+}
+
+// ---------------------------------------------------------------------------------------------
+// Threaded variant (plain stress; judged from the epochs the API returns)
+// ---------------------------------------------------------------------------------------------
+
+struct TRec {
+    thread: usize,
+    seq: usize,
+    start_epoch: u64,
+    w: u8,
+    /// Ok(commit epoch) | Err(kind)
+    result: Result<u64, &'static str>,
+    /// current_epoch() read right after the commit call returned
+    epoch_after: u64,
+}
+
+/// One repetition: `nthreads` threads, each running `per_thread` transactions on a pool of
+/// `nent` entities; with `gc_thread`, another thread calls gc() in a loop meanwhile; with
+/// `gc_by_workers` the workers themselves call gc() after some of their commits.
+#[allow(clippy::too_many_arguments)]
+fn threaded_rep(seed: u64, case: u64, nthreads: usize, per_thread: usize, nent: u8, gc_thread: bool, gc_by_workers: bool, rep: &mut Report) {
+    let mgr = Arc::new(TransactionManager::new());
+    let stop = Arc::new(std::sync::atomic::AtomicBool::new(false));
+    let barrier = Arc::new(std::sync::Barrier::new(nthreads + usize::from(gc_thread)));
+    let mut handles = Vec::new();
+    for th in 0..nthreads {
+        let mgr = Arc::clone(&mgr);
+        let barrier = Arc::clone(&barrier);
+        handles.push(std::thread::spawn(move || {
+            let mut r = Rng::new(seed, "C03.threaded", case * 16 + th as u64);
+            let mut out = Vec::new();
+            barrier.wait();
+            for seq in 0..per_thread {
+                let lvl = Lvl::from_index(r.below(3));
+                let tx = mgr.begin_with_isolation(lvl.iso());
+                let start_epoch = mgr.start_epoch(tx).map_or(u64::MAX, |e| e.as_u64());
+                let mut w = 0u8;
+                let nw = 1 + r.below(2);
+                for _ in 0..nw {
+                    let e = r.below(nent as usize) as u8;
+                    let ent: EntityId = hist::entity(0, e);
+                    if mgr.record_write(tx, ent).is_ok() {
+                        w |= 1 << e;
+                    }
+                }
+                if r.chance(0.3) {
+                    std::thread::yield_now();
+                }
+                let res = mgr.commit(tx);
+                let epoch_after = mgr.current_epoch().as_u64();
+                let d = hist::Dec::from_result(&res);
+                let result = match d {
+                    hist::Dec::Ok(e) => Ok(e),
+                    hist::Dec::WriteConflict => Err("write_conflict"),
+                    hist::Dec::SerFail => Err("serialization_failure"),
+                    hist::Dec::Other(_) => Err("other_error"),
+                };
+                if result.is_err() {
+                    let _ = mgr.abort(tx);
+                }
+                if gc_by_workers && r.chance(0.5) {
+                    mgr.gc();
+                }
+                out.push(TRec { thread: th, seq, start_epoch, w, result, epoch_after });
+            }
+            out
+        }));
+    }
+    let gc_handle = if gc_thread {
+        let mgr = Arc::clone(&mgr);
+        let stop = Arc::clone(&stop);
+        let barrier = Arc::clone(&barrier);
+        Some(std::thread::spawn(move || {
+            barrier.wait();
+            let mut n = 0u64;
+            while !stop.load(std::sync::atomic::Ordering::Relaxed) {
+                mgr.gc();
+                n += 1;
+                if n % 4 == 0 {
+                    std::thread::yield_now();
+                }
+            }
+            n
+        }))
+    } else {
+        None
+    };
+    let mut recs: Vec<TRec> = Vec::new();
+    for h in handles {
+        recs.extend(h.join().expect("worker thread"));
+    }
+    stop.store(true, std::sync::atomic::Ordering::Relaxed);
+    if let Some(g) = gc_handle {
+        rep.count("threaded.gc_calls", g.join().unwrap_or(0));
+    }
+    rep.eval();
+    let gcc = if gc_thread || gc_by_workers { "gc_concurrent" } else { "no_gc" };
+    rep.count(&format!("threaded.repetitions.{}", if gc_thread { "gc_thread" } else if gc_by_workers { "gc_by_workers" } else { "no_gc" }), 1);
+    let show = |t: &TRec| format!("thread{}#{} start_epoch={} writes={:#b} -> {:?} (epoch after call {})", t.thread, t.seq, t.start_epoch, t.w, t.result, t.epoch_after);
+    // (d) epochs unique; per thread increasing; commit epoch > start epoch
+    let mut epochs: Vec<u64> = recs.iter().filter_map(|t| t.result.ok()).collect();
+    let n_commits = epochs.len();
+    epochs.sort_unstable();
+    epochs.dedup();
+    if epochs.len() != n_commits {
+        rep.deviation(&format!("{P}:threaded|commit_epoch_not_unique"), json!({"commits": n_commits, "distinct_epochs": epochs.len()}));
+    }
+    for th in 0..nthreads {
+        let mut last = 0u64;
+        for t in recs.iter().filter(|t| t.thread == th) {
+            if let Ok(e) = t.result {
+                if e <= last || e <= t.start_epoch {
+                    rep.deviation(&format!("{P}:threaded|commit_epoch_not_increasing"), json!({"tx": show(t), "previous_commit_epoch_of_thread": last}));
+                }
+                last = e;
+            }
+        }
+    }
+    let mut overlapping_pairs = 0u64;
+    for (i, t) in recs.iter().enumerate() {
+        rep.count(&format!("threaded.decision.{}", match t.result {
+            Ok(_) => "ok",
+            Err(k) => k,
+        }), 1);
+        match t.result {
+            Ok(te) => {
+                // (a) no committed U with U.commit in (T.start, T.commit) writing a common entity
+                for (j, u) in recs.iter().enumerate() {
+                    if i == j || u.w & t.w == 0 {
+                        continue;
+                    }
+                    if let Ok(ue) = u.result {
+                        if ue > t.start_epoch && ue < te {
+                            rep.deviation(
+                                &format!("{P}:threaded|overlap|{gcc}|both_commit"),
+                                json!({"threads": nthreads, "entities": nent, "first_committer": show(u), "second_committer": show(t),
+                                       "why": "first committed (epoch) after the second had begun (start epoch), common entity, both accepted"}),
+                            );
+                        }
+                    }
+                }
+            }
+            Err(kind) => {
+                // (b) a refusal needs a committed U, U.commit > T.start, common entity, and U's
+                // commit must have happened by the time T's commit call returned
+                let cause = recs.iter().enumerate().any(|(j, u)| {
+                    i != j && u.w & t.w != 0 && matches!(u.result, Ok(ue) if ue > t.start_epoch && ue <= t.epoch_after)
+                });
+                if cause {
+                    overlapping_pairs += 1;
+                }
+                if kind != "write_conflict" {
+                    rep.deviation(&format!("{P}:threaded|commit_error|{kind}"), json!({"tx": show(t)}));
+                } else if !cause {
+                    let earlier = recs.iter().enumerate().any(|(j, u)| i != j && u.w & t.w != 0 && matches!(u.result, Ok(ue) if ue <= t.start_epoch));
+                    let rel = if earlier { "non_overlap" } else { "no_writer" };
+                    rep.deviation(
+                        &format!("{P}:threaded|{rel}|{gcc}|refused"),
+                        json!({"threads": nthreads, "entities": nent, "refused": show(t),
+                               "committed_writers_of_common_entities": recs.iter().filter(|u| u.w & t.w != 0 && u.result.is_ok()).map(&show).collect::<Vec<_>>()}),
+                    );
+                }
+            }
+        }
+    }
+    rep.count("threaded.justified_refusals", overlapping_pairs);
+    if overlapping_pairs > 0 {
+        rep.nontrivial(crate::rng::hash_str(&format!("T{seed}.{case}.{nthreads}.{nent}.{gcc}")));
+    }
+}
+
+pub fn run(tier: Tier, seed: u64) -> ! {
+    let mut rep = Report::new("C03", tier, seed, "exploration");
+    rep.rule = "manager level: histories of begin(level)/record_write(entity)/commit/abort/gc on TransactionManager, each run with gc stripped, gc at the generated points and gc after every operation (exhaustive families: additionally a single gc at every position); expected decision of every commit computed from the recorded history and the observed fate of the earlier commits. Families: directed matrix; ALL interleavings of all write-only programs (every subset of the entities, ended by commit or abort) for <=3 tx x 2 entities (every run, quick and thorough), 4 tx x 1 entity (complete in thorough), 3 tx x 3 entities and 4 tx x 2 entities (pseudo-random 1/k of the interleavings); random 2-6 tx x 1-4 entities with long readers, retries after refusal, mixed levels. Session level: SET/DELETE statements on nodes and edges through real sessions (directed matrix + random). Begin gap: commit/abort/gc of the other writer scheduled inside begin() through the hook site (directed cells). Threaded: 2-4 threads x conflicting transactions (no gc / gc thread / gc by the workers), judged from start/commit epochs. non-trivial = history with >= 1 pair of overlapping writers of one entity that both asked to commit (distinct by structural hash)".into();
+
+    let t0 = std::time::Instant::now();
+    let lap = |what: &str| {
+        if std::env::var("VH_TIMING").is_ok() {
+            eprintln!("timing: {what} done at {:.1}s", t0.elapsed().as_secs_f64());
+        }
+    };
+    // manager level
+    let mut acc = Acc::default();
+    manager_matrix(&mut acc);
+    lap("matrix");
+    acc.merge(manager_exhaustive(seed, 1, 2, true, 1, "exhaustive.1tx_2ent"));
+    acc.merge(manager_exhaustive(seed, 2, 2, true, 1, "exhaustive.2tx_2ent"));
+    acc.merge(manager_exhaustive(seed, 3, 1, true, 1, "exhaustive.3tx_1ent"));
+    acc.merge(manager_exhaustive(seed, 3, 2, true, 1, "exhaustive.3tx_2ent"));
+    lap("exhaustive <=3tx x 2ent");
+    match tier {
+        Tier::Quick => {
+            acc.merge(manager_exhaustive(seed, 4, 1, false, 20, "exhaustive.4tx_1ent.sampled"));
+            acc.merge(manager_exhaustive(seed, 3, 3, false, 400, "exhaustive.3tx_3ent.sampled"));
+        }
+        Tier::Thorough => {
+            acc.merge(manager_exhaustive(seed, 4, 1, true, 1, "exhaustive.4tx_1ent"));
+            acc.merge(manager_exhaustive(seed, 3, 3, false, 8, "exhaustive.3tx_3ent.sampled"));
+            acc.merge(manager_exhaustive(seed, 4, 2, false, 80, "exhaustive.4tx_2ent.sampled"));
+        }
+    }
+    acc.merge(manager_random(seed, tier.pick(400_000, 8_000_000)));
+    lap("manager random + larger families");
+    acc.into_report(&mut rep);
+    lap("merge");
+
+    begin_gap_matrix(&mut rep);
+
+    // session level
+    session_matrix(&mut rep);
+    session_random(&mut rep, seed, tier.pick(600, 20_000));
+
+    lap("session");
+    // threaded
+    let reps = tier.pick(300, 9000);
+    for case in 0..reps {
+        let mut r = Rng::new(seed, "C03.threaded.cfg", case);
+        let nthreads = 2 + r.below(3);
+        let nent = 1 + r.below(3) as u8;
+        let per_thread = 2 + r.below(6);
+        threaded_rep(seed, case, nthreads, per_thread, nent, case % 3 == 1, case % 3 == 2, &mut rep);
+    }
+
+    lap("threaded");
+    rep.assumptions = vec![
+        "lifetimes are taken from the order of API calls (single-threaded histories) or from the start/commit epochs the API returns (threaded)".into(),
+        "each commit is judged against the OBSERVED fate of earlier commits, so one wrong decision does not cascade into later expectations".into(),
+        "a session statement counts as a modification only if the session saw the entity right before and the statement reports a processed row".into(),
+        "edge cells are unreachable at session level today: SET e.p / DELETE e on an edge variable act on the NODE whose numeric id equals the edge's id (planner.rs plan_set_property always builds a node operator; no translator emits DeleteEdge), so edge statements are counted as no_effect (see counters session.stmt.*edge*)".into(),
+        "session-level final values are checked only on targets no rolled-back or open transaction touched (rollback is C02's subject)".into(),
+        "threaded variant is plain stress; the begin gap is additionally driven deterministically through the hook site txmgr.begin.between_epoch_and_insert (commit/gc executed inside T's begin call, on the same thread)".into(),
+    ];
+    rep.finish()
 }
